@@ -24,6 +24,7 @@ def _workaround_for_static_import_finders():
     import pycparser.lextab
 
 CDEF_SOURCE_STRING = "<cdef source string>"
+_SIMPLE_ESCAPES = {'n': 10, 't': 9, 'r': 13, 'a': 7, 'b': 8, 'f': 12, 'v': 11}
 _r_other_whitespace = re.compile(r"[\r\f\v]")
 _r_comment = re.compile(r"/\*.*?\*/|//([^\n\\]|\\.)*?$",
                         re.DOTALL | re.MULTILINE)
@@ -900,6 +901,12 @@ class Parser:
                 raise CDefError("invalid constant %r" % (s,))
             elif s[0] == "'" and s[-1] == "'" and (
                     len(s) == 3 or (len(s) == 4 and s[1] == "\\")):
+                if len(s) == 4:
+                    # simple escape sequences: '\n' is 10, not ord('n')
+                    if s[2] in _SIMPLE_ESCAPES:
+                        return _SIMPLE_ESCAPES[s[2]]
+                    if '0' <= s[2] <= '7':
+                        return int(s[2], 8)
                 return ord(s[-2])
             else:
                 raise CDefError("invalid constant %r" % (s,))
